@@ -24,6 +24,7 @@
 #include <opm/input/eclipse/Parser/ParserRecord.hpp>
 #include <opm/input/eclipse/Parser/ParserItem.hpp>
 #include <opm/input/eclipse/Parser/ParseContext.hpp>
+#include <opm/input/eclipse/Parser/InputErrorAction.hpp>
 #include <opm/input/eclipse/Parser/ErrorGuard.hpp>
 #include <opm/input/eclipse/Deck/Deck.hpp>
 #include <opm/input/eclipse/Deck/DeckKeyword.hpp>
@@ -729,6 +730,7 @@ static int corr(uint64_t seed, const std::string& tier, const std::string& outdi
                 sch += schemaString(rs);
             }
             if (sch.empty()) sch = "none";
+            if (kw.getSizeType() == Opm::SLASH_TERMINATED && !kw.hasFixedSize()) return kwDef(name, "S", false, "-", false, false, sch);
             if (!kw.hasFixedSize()) return "";
             return kwDef(name, "F" + std::to_string(kw.getFixedSize()), false, kw.min_size().has_value() ? std::to_string(*kw.min_size()) : "-", false, false, sch);
         };
@@ -745,11 +747,64 @@ static int corr(uint64_t seed, const std::string& tier, const std::string& outdi
                 parts.push_back(pe.text);
                 used.push_back(pe.kw);
             }
+            // second round: TITLE (the next line, even an empty one, is the record; a slash stays),
+            // SKIP / SKIP100 ... ENDSKIP blocks between keywords, SKIP300 (an ordinary keyword
+            // under the default ParseContext), PATHS + `$ALIAS` in INCLUDE paths
+            bool usePaths = r.coin(1, 5);
+            {
+                int nSpecial = r.range(0, 2);
+                for (int q = 0; q < nSpecial; ++q) {
+                    std::string sp;
+                    switch (r.range(0, 4)) {
+                    case 0: case 1: {
+                        sp = r.coin(1, 4) ? "title -- c\n" : "TITLE\n";
+                        switch (r.range(0, 5)) {
+                        case 0: sp += "\n"; break;                                   // empty line: default title
+                        case 1: sp += "  -- only a comment\n"; break;
+                        case 2: sp += " " + randWord(r) + " " + randWord(r) + " / text after\n"; break;
+                        case 3: sp += "\n\n OIL\n"; break;                          // the empty line is the title, OIL a keyword line
+                        case 4: sp += " 'A quoted' " + randWord(r) + " 3 1.5\n"; break;
+                        default: sp += "  " + randWord(r) + (r.coin() ? " " + randWord(r) + " 3" : "") + "\n";
+                        }
+                        sink.count("deck.special.title");
+                        break; }
+                    case 2: {
+                        static const char* sk[] = {"SKIP", "SKIP100", "skip", "SKIP  -- c"};
+                        sp = std::string(sk[r.below(4)]) + "\n";
+                        int nj = r.range(0, 3);
+                        for (int j = 0; j < nj; ++j) {
+                            switch (r.range(0, 3)) {
+                            case 0: sp += " junk 'unbalanced / \n"; break;
+                            case 1: sp += "OIL\n"; break;
+                            case 2: sp += "SKIP\n"; break;
+                            default: sp += "\n";
+                            }
+                        }
+                        if (!r.coin(1, 12)) sp += r.coin() ? "ENDSKIP\n" : "endskip  text -- c\n";
+                        if (r.coin(1, 5)) sp += "ENDSKIP\n";                       // stray ENDSKIP: ignored
+                        sink.count("deck.special.skip");
+                        break; }
+                    case 3: sp = "SKIP300\n"; sink.count("deck.special.skip300"); break;
+                    default: sp = "ENDSKIP\n"; sink.count("deck.special.endskip");
+                    }
+                    size_t at = r.below(parts.size() + 1);
+                    parts.insert(parts.begin() + at, sp);
+                    used.insert(used.begin() + at, static_cast<size_t>(-1));
+                }
+            }
             bool withEnd = r.coin(1, 6);
             size_t endAt = withEnd ? r.below(parts.size() + 1) : parts.size() + 1;
             // INCLUDE splitting: a run of whole keywords goes to a file
             std::vector<std::pair<std::string, std::string>> files;
             std::string main;
+            if (usePaths) {
+                main += "PATHS\n 'DIR' '" + tmpdir + "' /\n";
+                if (r.coin(1, 3)) main += " 'DIR' '/nowhere' /\n";                  // emplace keeps the first value
+                if (r.coin(1, 3)) main += " 'OTHER' '/tmp' / text\n";
+                if (r.coin(1, 10)) main += " 'ONEITEM' /\n";                       // item 1 missing: .at() throws
+                main += "/\n";
+                sink.count("deck.special.paths");
+            }
             size_t i = 0; int fileNo = 0;
             while (i < parts.size()) {
                 if (i == endAt) main += "END\n";
@@ -765,16 +820,32 @@ static int corr(uint64_t seed, const std::string& tier, const std::string& outdi
                         content += std::string(r.coin() ? "INCLUDE\n" : "include -- nested\n") + " '" + inner + "' /\n";
                         ++len;
                     }
-                    std::string path = tmpdir + "/d" + std::to_string(n) + "_" + std::to_string(fileNo++) + ".inc";
+                    std::string fname = "d" + std::to_string(n) + "_" + std::to_string(fileNo++) + ".inc";
+                    std::string path = tmpdir + "/" + fname;
+                    if (r.coin(1, 8)) {
+                        // ENDINC: the rest of the file (garbage, whole keywords) is not read
+                        content += std::string(r.coin() ? "ENDINC\n" : "endinc -- c\n") + (r.coin() ? " junk 'unbalanced / \n" : "") + (r.coin() ? "WATER\nGAS\n" : "");
+                        sink.count("deck.special.endinc");
+                    }
+                    if (r.coin(1, 8) && content.size() > 4) {
+                        // the file ends anywhere: inside a record (the parser throws since d37f2f297),
+                        // between the records of a keyword (it goes on in the including file), inside a word
+                        content.resize(r.range(1, static_cast<int>(content.size()) - 1));
+                        sink.count("deck.special.truncated_include");
+                    }
                     if (r.coin(1, 4) && !content.empty() && content.back() == '\n') content.pop_back();   // file without final newline
                     vh::spit(path, content);
                     files.push_back({path, content});
-                    main += std::string("INCLUDE\n") + (r.coin() ? " '" : "'") + path + (r.coin() ? "' /\n" : "'/ text\n");
+                    std::string shown = path;
+                    if (usePaths && r.coin(2, 3)) { shown = (r.coin() ? "$DIR/" : " $DIR/") + fname; sink.count("deck.special.alias_path"); }
+                    else if (r.coin(1, 15)) { shown = "$NOALIAS/" + fname; sink.count("deck.special.unknown_alias"); }
+                    main += std::string("INCLUDE\n") + (r.coin() ? " '" : "'") + shown + (r.coin() ? "' /\n" : "'/ text\n");
                     i += len;
                 } else { main += parts[i]; ++i; }
             }
             if (endAt == parts.size()) main += "END\n";
             if (withEnd && r.coin()) main += "GARBAGE after END 'x /\n";
+            if (!withEnd && r.coin(1, 12)) { main += "ENDINC\nGARBAGE after ENDINC 'x /\n"; sink.count("deck.special.endinc_main"); }
 
             // table of the keywords involved
             std::vector<std::string> defs;
@@ -785,11 +856,12 @@ static int corr(uint64_t seed, const std::string& tier, const std::string& outdi
             };
             bool okDefs = true;
             for (size_t u : used) {
+                if (u == static_cast<size_t>(-1)) continue;
                 const KwS& k = kws[u];
                 addDef(k.name, kwDef(k.name, sizeSpec(k), k.raw, k.mn, k.alt, k.dbl, k.schemas));
                 if (!k.dimsKw.empty()) { std::string d = helperDef(k.dimsKw); if (d.empty()) okDefs = false; addDef(k.dimsKw, d); }
             }
-            for (const char* h : {"OIL", "END", "INCLUDE"}) { std::string d = helperDef(h); if (d.empty()) okDefs = false; addDef(h, d); }
+            for (const char* h : {"OIL", "END", "INCLUDE", "TITLE", "ENDINC", "PATHS", "SKIP300", "WATER", "GAS"}) { std::string d = helperDef(h); if (d.empty()) okDefs = false; addDef(h, d); }
             if (!okDefs) { sink.count("deck.skipped"); continue; }
             std::string defArg;
             for (size_t j = 0; j < defs.size(); ++j) { if (j) defArg += "~"; defArg += defs[j]; }
@@ -823,8 +895,11 @@ static int corr(uint64_t seed, const std::string& tier, const std::string& outdi
                 if (!s2.empty()) fileArg = s2;
             }
             std::string ans;
+            bool foreign = false;
             {
                 Opm::ParseContext ctx; Opm::ErrorGuard errors;
+                // a missing INCLUDE file (unknown alias, path taken from a following line) is EXIT1 by default
+                ctx.update(Opm::ParseContext::PARSE_MISSING_INCLUDE, Opm::InputErrorAction::THROW_EXCEPTION);
                 try {
                     auto deck = parser.parseString(main, ctx, errors);
                     errors.clear();
@@ -832,6 +907,9 @@ static int corr(uint64_t seed, const std::string& tier, const std::string& outdi
                     if (deck.size() == 0) ans += "-";
                     for (size_t j = 0; j < deck.size(); ++j) {
                         const auto& dk = deck[j];
+                        // a truncated file can end in a word that happens to be another keyword of the
+                        // real parser (WCONINJE -> WCONINJ): the model's table does not know it - not a test
+                        if (std::find(names.begin(), names.end(), dk.name()) == names.end()) foreign = true;
                         if (j) ans += "~";
                         ans += hex(dk.name()) + "=";
                         if (dk.size() == 0) ans += "none";
@@ -840,6 +918,7 @@ static int corr(uint64_t seed, const std::string& tier, const std::string& outdi
                 } catch (const std::exception&) { errors.clear(); ans = "err"; }
                 catch (...) { errors.clear(); ans = "err"; }
             }
+            if (foreign) { sink.count("deck.skipped_foreign_keyword"); for (const auto& f : files) std::remove(f.first.c_str()); continue; }
             sink.count(ans == "err" ? "deck.parse.err" : "deck.parse.ok");
             sink.count("deck.include_files", static_cast<long>(files.size()));
             if (withEnd) sink.count("deck.with_END");
